@@ -46,11 +46,10 @@ theorem stopsM_flush : StopsM flushM := by
 theorem stopsM_write (b : Bytes) : StopsM (writeM b) := by
   intro s
   unfold writeM
+  simp only
   split
   · exact .ret _
-  · split
-    · exact .ret _
-    · exact .call _ _ (fun n => ⟨.plain .io, rfl, rfl⟩) (.ret _)
+  · exact .call _ _ (fun n => ⟨.plain .io, rfl, rfl⟩) (.ret _)
 
 theorem stopsM_trimLeft : StopsM trimLeftM := by
   intro s
